@@ -313,8 +313,8 @@ std::string CDNS::CdnsDecoder::read_string(CborType cbor_type, uint64_t length, 
     std::string ret;
 
     if (!indef) {
-        ret.reserve(length);
-        for (unsigned i = 0; i < length; i++) {
+        ret.reserve(length < BUFFER_SIZE ? length : BUFFER_SIZE);
+        for (uint64_t i = 0; i < length; i++) {
             read_to_buffer();
             ret.push_back(m_p[0]);
             m_p++;
@@ -334,8 +334,8 @@ std::string CDNS::CdnsDecoder::read_string(CborType cbor_type, uint64_t length, 
             }
 
             uint64_t chunk_length = read_int(chunk_length_value);
-            ret.reserve(ret.size() + chunk_length);
-            for (unsigned i = 0; i < chunk_length; i++) {
+            ret.reserve(ret.size() + (chunk_length < BUFFER_SIZE ? chunk_length : BUFFER_SIZE));
+            for (uint64_t i = 0; i < chunk_length; i++) {
                 read_to_buffer();
                 ret.push_back(m_p[0]);
                 m_p++;
